@@ -860,6 +860,13 @@ func (u *Unit) havocLoop(st *State, body ast.Node, extra []ast.Node, ls *LoopSpe
 		if old.K == vFunc {
 			continue
 		}
+		if u.isCut(old) && appendsTo(body, o, u.pkg.TypesInfo) && u.c != nil && u.c.Flags["append_in_place_ok"] {
+			u.assumeNote("append to a re-sliced view in " + u.name + " is modelled as copying: the unit declares (append_in_place_ok) that the overwritten backing array is not observed afterwards")
+		}
+		if u.isCut(old) && appendsTo(body, o, u.pkg.TypesInfo) && !(u.c != nil && u.c.Flags["append_in_place_ok"]) {
+			// a re-sliced view enters a loop that appends to it: the first append writes into the shared backing array
+			u.emit(st, "alias/append@loop:"+o.Name(), "false", "append to a re-sliced view writes into the shared backing array (not modelled): build the result in a slice of its own, or declare flag append_in_place_ok")
+		}
 		st.env[o] = u.freshValue(o.Type(), o.Name(), st)
 	}
 	if ls != nil && ls.HasMod {
@@ -1864,4 +1871,20 @@ func (u *Unit) anchorsIn(body ast.Node, extra []ast.Node) func(string) bool {
 		}
 		return true
 	}
+}
+
+// appendsTo: the node contains append(v, ...) for the local v.
+func appendsTo(n ast.Node, v types.Object, info *types.Info) bool {
+	found := false
+	ast.Inspect(n, func(nn ast.Node) bool {
+		if c, ok := nn.(*ast.CallExpr); ok && len(c.Args) > 0 {
+			if id, ok := ast.Unparen(c.Fun).(*ast.Ident); ok && id.Name == "append" {
+				if a, ok := ast.Unparen(c.Args[0]).(*ast.Ident); ok && info.ObjectOf(a) == v {
+					found = true
+				}
+			}
+		}
+		return !found
+	})
+	return found
 }
